@@ -168,6 +168,35 @@ def r_tag_table(ck: Checker) -> None:
     (ck.violation if bad else ck.holds)("R-TAG-TABLE", ds, ds.node, what, evaluations=len(leaves), **({"construct": f"{MIXIN}._deserialize: {bad[0]}"} if bad else {}))
 
 
+def r_codec_config(ck: Checker) -> None:
+    """mashumaro Config switches that drop values from the output (omit_default / omit_none): a value equal to the default is not the
+    default (0.0 == 0, -0.0 == 0.0), and what was dropped comes back as the default."""
+    what = "no serializable class switches on a mashumaro option that leaves values out of the output"
+    for m in ck.repo.nonlegacy():
+        for c in [x for x in ast.walk(m.tree) if isinstance(x, ast.ClassDef) and x.name == "Config"]:
+            for st in c.body:
+                tg = st.targets[0] if isinstance(st, ast.Assign) and len(st.targets) == 1 else (st.target if isinstance(st, ast.AnnAssign) else None)
+                if isinstance(tg, ast.Name) and tg.id in ("omit_default", "omit_none") and isinstance(getattr(st, "value", None), ast.Constant) and st.value.value is True:
+                    ck.violation("R-FMT-PAIR", (m.rel, "class Config"), st, what, positive=True,
+                                 construct=f"Config.{tg.id} = True: a field whose value compares equal to its default is left out and re-created as the default "
+                                 "(0.0 for a default of 0, -0.0 for 0.0 ...): the re-created node has another value and content_id")
+                    return
+    ck.holds("R-FMT-PAIR", ("src/pyoak", "*"), None, what)
+
+
+def r_index_live(ck: Checker) -> None:
+    """The registry index of a source is looked up when it is needed: the registry can be cleared and refilled in another order."""
+    what = "a source's registry index is read from the registry at the time of use (never remembered on the source)"
+    c = ck.repo.cls(ORIGIN, "Source")
+    for st in c.node.body:
+        if isinstance(st, ast.FunctionDef) and any((dotted(d.func if isinstance(d, ast.Call) else d) or "").split(".")[-1] in ("cached_property", "lru_cache", "cache") for d in st.decorator_list) \
+                and any(isinstance(x, ast.Attribute) and x.attr in ("_sources", "_source_idx_to_source") for x in ast.walk(st)):
+            ck.violation("R-IDX-PAIR", (c.mod.rel, f"Source.{st.name}"), st, what, positive=True,
+                         construct=f"Source.{st.name} is memoised but reads the source registry: after clear_registry() and re-registration the source keeps its old index")
+            return
+    ck.holds("R-IDX-PAIR", (c.mod.rel, "class Source"), c.node, what)
+
+
 def r_singleton_rt(ck: Checker) -> None:
     m = ck.repo.mod(ORIGIN)
     consts = {}
@@ -397,6 +426,8 @@ def run(ck: Checker) -> None:
     ck.guard("R-SINGLETON-RT", lambda: r_singleton_rt(ck))
     ck.guard("R-FMT-PAIR", lambda: r_fmt_pair(ck))
     ck.guard("R-IDX-PAIR", lambda: r_idx_pair(ck))
+    ck.guard("R-IDX-PAIR", lambda: r_index_live(ck))
+    ck.guard("R-FMT-PAIR", lambda: r_codec_config(ck))
     # a multi-origin must come back equal: its derived source follows the members' sources by value
     from .c15 import r_multiorigin_init
     ck.guard("R-MULTIORIGIN", lambda: r_multiorigin_init(ck, "R-MULTIORIGIN"))
